@@ -1,4 +1,6 @@
 """C14 - caches never change a verdict or an answer (structural necessary conditions)."""
+import re
+
 import kinds as K
 
 CRATES = ["ckb_verification_contextual", "ckb_tx_pool", "ckb_store", "ckb_verification"]
@@ -208,3 +210,49 @@ def run(F, S, R, tier):
         K.whocalls(R, "whocalls/system-cell", F, r"OnceCell::<.*>::set$|OnceLock::<.*>::set$", {r"setup_system_cell_cache": "the only initialiser of SYSTEM_CELL", r"^(?!ckb_types::core::cell)": "other OnceCells"}, crates=["ckb_types"], min_sites=1,
                    what="system cell cache initialiser")
     R.guard("whocalls/cache-fields", who)
+
+    # ---------------------------------------------------------------- 5. F27 (fixed): a deleted block must leave the block-keyed caches
+    def invalidate():
+        """The read caches are shared by every store view and are not transactional. StoreTransaction::delete_block (invalid block, expired
+        orphan) used to leave the header / uncles / proposals / tx-hashes / extension entries behind: get_block(hash) answered Some(header, EMPTY
+        body) and block_exists true for a block that is gone (a queued second copy of an invalid block was then 'verified' as an empty block and
+        the verify thread died). Decided: (a) StoreCache has one function that pops the hash from EVERY LRU keyed by a block hash (Byte32), a new
+        block-keyed cache must be added there; (b) delete_block evicts; (c) commit evicts again what the transaction deleted (a reader may have
+        refilled the cache between the deletion and the commit). The cell-data caches are keyed by out-point and hold immutable content; whether
+        a cell is live is decided by get_cell, which is not cached (reviewed exception)."""
+        adt = F.adt("ckb_store::cache::StoreCache")
+        if not adt:
+            R.bad("invalidate/anchor-lost", "StoreCache not found", [])
+            return
+        block_keyed = [f["n"] for f in adt["variants"][0]["f"] if re.search(r"LruCache<ckb_gen_types::generated::blockchain::Byte32,", str(f["ty"]))]
+        ev = [b for b in F.bodies_of_crate("ckb_store") if re.search(r"cache::StoreCache::evict_block$", b.path)]
+        R.sites += len(block_keyed)
+        if not ev:
+            R.bad("invalidate/evict-all/anchor-lost", "StoreCache::evict_block not found", [])
+            return
+        e = ev[0]
+        R.fn(e)
+        popped = set()
+        for c in e.calls_to(r"LruCache::<.*>::pop$"):
+            for x in e.operand_sources(c.args[0]):
+                m = re.search(r"StoreCache\.(\w+)$", x)
+                if m:
+                    popped.add(m.group(1))
+        missing = sorted(set(block_keyed) - popped)
+        if len(block_keyed) < 5:
+            R.bad("invalidate/evict-all/anchor-lost", "expected >=5 block-keyed LRUs in StoreCache, found %s" % block_keyed, [])
+        elif missing:
+            R.bad("invalidate/evict-all", "StoreCache::evict_block does not pop the block-keyed cache(s) %s: a deleted block keeps being answered from there" % missing, [e.where()])
+        else:
+            R.ok("invalidate/evict-all", "evict_block pops all %d block-keyed LRUs (%s)" % (len(block_keyed), ", ".join(sorted(block_keyed))), [e.where()])
+        db = F.need("ckb_store::transaction::StoreTransaction::delete_block")
+        K.mustcall(R, "invalidate/delete-block", db, [r"cache::StoreCache::evict_block$"], S, what="a deleted block leaves the store caches (F27)")
+        cm = F.need("ckb_store::transaction::StoreTransaction::commit")
+        inner = cm.calls_to(r"RocksDBTransaction::commit$")
+        evs = [c for b in [cm] + list(cm.nested()) for c in b.calls_to(r"cache::StoreCache::evict_block$")]
+        R.sites += len(inner) + len(evs)
+        if inner and evs and all(c.body is not cm or cm.dominates(inner[0].bb, c.bb) for c in evs):
+            R.ok("invalidate/commit", "the blocks a transaction deleted are evicted again once the deletion is committed", [evs[0].where()])
+        else:
+            R.bad("invalidate/commit", "StoreTransaction::commit no longer evicts the deleted blocks after the commit: a reader that refilled the cache between delete_block and commit keeps the block alive", [cm.where()])
+    R.guard("invalidate", invalidate)
